@@ -75,7 +75,11 @@ def getCfgEv (j : Json) : Except String (Cfg Json × List (Nat × In Json)) := d
       preCancelled := (j.getObjValAs? Bool "pre").toOption.getD false,
       cancelAt := cancelAt, token := token, zero := Json.num 0,
       eventsFirst := (j.getObjValAs? Bool "eventsFirst").toOption.getD true,
-      cbRaises := fun _ => false }
+      cbRaises := fun _ => false,
+      writer := match (j.getObjValAs? String "writer").toOption with
+        | some "closed" => .closed
+        | some "blocked" => .blocked
+        | _ => .open }
     return (cfg, ev)
   else throw "P must be positive"
 
@@ -117,7 +121,11 @@ def handle (j : Json) : Except String Json := do
       preCancelled := (j.getObjValAs? Bool "pre").toOption.getD false,
       cancelAt := cancelAt, token := token, zero := Json.num 0,
       eventsFirst := (j.getObjValAs? Bool "eventsFirst").toOption.getD true,
-      cbRaises := fun _ => false }
+      cbRaises := fun _ => false,
+      writer := match (j.getObjValAs? String "writer").toOption with
+        | some "closed" => .closed
+        | some "blocked" => .blocked
+        | _ => .open }
     return outJson (run Verif.Gen.Errors.isRetryableError cfg ev)
   else throw "P must be positive"
 end Verif.Drv.Await
